@@ -311,7 +311,7 @@ var errOracle = fmt.Errorf("payability oracle failure")
 
 func (p *payOracle) IsPayable(addr []byte) (bool, error) {
 	if err := p.sh.dep("is-payable"); err != nil {
-		return false, err
+		return true, err // a failing oracle gives no usable answer: a caller that ignores the error must not get away with it
 	}
 	p.sh.mu.Lock()
 	mode := p.sh.Payable[string(addr)]
@@ -320,7 +320,7 @@ func (p *payOracle) IsPayable(addr []byte) (bool, error) {
 	case 1:
 		return false, nil
 	case 2:
-		return false, errOracle
+		return true, errOracle // as above: the boolean of a failed query means nothing
 	}
 	return true, nil
 }
@@ -514,6 +514,7 @@ type Result struct {
 	Alloc    uint64
 	Diff     []DiffEntry
 	InputMut string // non-empty: how the call modified its input
+	ArgsAfter [][]byte // the argument list as the input structure holds it AFTER the call (a node re-reads it)
 	Deps     map[string]int
 	FaultHit bool
 	OtherShardsTouched bool
@@ -679,6 +680,9 @@ func (w *World) Exec(c *Call) *Result {
 		res.Deps[k] = v
 	}
 	res.InputMut = l.intact(c)
+	for _, a := range l.in.Arguments {
+		res.ArgsAfter = append(res.ArgsAfter, cp(a))
+	}
 	for i, o := range w.Shards {
 		if i != c.Shard && o.mutations != others[i] {
 			res.OtherShardsTouched = true
